@@ -860,6 +860,10 @@ fn directed(ctx: &mut Ctx) {
         "h\u{e9}llo\n\u{20ac}\r\n\u{1f600}\u{10ffff}\u{800}\u{7ff}\u{d7ff}\u{e000}\u{10000}\u{90000}\n\u{80}".as_bytes().to_vec(),
         long,
         very_long,
+        // a byte-order mark is part of the first line, on the first pass and after every rewind
+        "\u{feff}first\nsecond\r\nthird".as_bytes().to_vec(),
+        "\u{feff}".as_bytes().to_vec(),
+        "\u{feff}\n\u{feff}x\n".as_bytes().to_vec(),
     ];
     // every ill-formed fragment: as a whole LF-terminated line, before CRLF, and as unterminated tail
     for frag in BAD_UTF8 {
@@ -874,10 +878,12 @@ fn directed(ctx: &mut Ctx) {
     for (ti, text) in texts.iter().enumerate() {
         let n = oracle_lines(text).len();
         let big = text.len() > 10_000;
-        let kinds: &[&str] = if big || ti % 3 == 0 { &["lines", "gzip", "zstd"] } else { &["lines"] };
+        let kinds: &[&str] =
+            if big || ti % 3 == 0 || text.starts_with(&[0xEF, 0xBB, 0xBF]) { &["lines", "gzip", "zstd"] } else { &["lines"] };
         for kind in kinds {
             for backing in ["mem", "file", "path", "fd"] {
-                if backing != "mem" && !(big || ti % 4 == 0) {
+                let bom = text.starts_with(&[0xEF, 0xBB, 0xBF]);
+                if backing != "mem" && !(big || bom || ti % 4 == 0) {
                     continue;
                 }
                 // `path` of a plain line lender is the constructor `file` already uses
